@@ -44,3 +44,30 @@ def chain_compiler_rules(chk, repo, prefix):
     C05.rule_R2(chk, repo, rid=f'{prefix}.b')
     C05.rule_R3(chk, repo, rid=f'{prefix}.c')
     C05.rule_R5(chk, repo, rid=f'{prefix}.d')
+
+
+def ownership_rules(chk, repo, rid, text=None):
+    """MPS / MPO objects own their quantum-number arrays: constructors convert, results share nothing with operands.
+    (rules of C19 re-evaluated for the MPS/MPO-returning operations)"""
+    from ..effects import Engine
+    from . import C19
+    chk.rule(rid, text or 'support: every MPS / MPO owns its quantum-number arrays and tensors (constructors copy, results of the '
+                          'arithmetic share no mutable state with operands), so that an in-place change of one object '
+                          '(zero_qnumbers, orthonormalize, ...) cannot invalidate the labels of another (rules of C19 '
+                          're-evaluated)')
+    eng = Engine(repo)
+    quals = ['mps.MPS.__init__', 'mpo.MPO.__init__'] + [q for q in C19.RESULT if q.split('.')[0] in ('mps', 'mpo', 'operation')]
+    n = 0
+    for q in quals:
+        fi = repo.func(q)
+        res, pw = C19.analyse_entry(eng, fi)
+        w = f'pytenet/{fi.module}.py:{q.split(".", 1)[1]}:{fi.node.lineno}'
+        if fi.name == '__init__':
+            sh = C19.shared_with_params(eng, fi, res['args']['self'], exclude=('self',))
+        else:
+            sh = C19.shared_with_params(eng, fi, res['ret'])
+        chk.ob(rid, w, f'{q}: the new object shares no mutable state with its arguments', not sh,
+               'can reach ' + ', '.join(sh[:4]) if sh else '', key=f'{rid}|{q}|sharing')
+        n += 1
+    chk.floor(rid, n, 12)
+    return n
